@@ -44,6 +44,9 @@ type C09Case struct {
 	SleepWinMs   int                  `json:"breaker_sleep_window_ms"`
 	Script       map[string][]Outcome `json:"script"` // host -> outcome of its n-th Bulk call; past the end: ok
 	Clients      [][]int              `json:"clients"` // per client: sizes of the payloads it stores, one StoreDocuments each
+	// request context of the clients' StoreDocuments calls: 0 = none, >0 = deadline after that many
+	// simulated ms (the caller gives up while attempts are under way), <0 = cancelled before the call
+	CtxMs        int                  `json:"ctx_ms,omitempty"`
 	PSync        float64              `json:"p_sync"`
 	Schedule     []int                `json:"schedule,omitempty"`
 }
@@ -293,7 +296,20 @@ func (r *c09Runner) store(client *bulk.SeqDBClient, ci, no, size int, hot, cold 
 	want := fingerprint(&pb.BulkRequest{Count: int64(no), Docs: docs, Metas: metas})
 	before := len(r.calls)
 	r.logf("c%d StoreDocuments #%d invoke", ci, no)
-	err := client.StoreDocuments(context.Background(), no, docs, metas)
+	ctx, cancel := context.Background(), context.CancelFunc(func() {})
+	if !r.calm {
+		switch {
+		case r.c.CtxMs > 0:
+			ctx, cancel = context.WithTimeout(ctx, time.Duration(r.c.CtxMs)*time.Millisecond)
+			r.res.Fired["request_deadline"]++
+		case r.c.CtxMs < 0:
+			ctx, cancel = context.WithCancel(ctx)
+			cancel()
+			r.res.Fired["request_cancelled"]++
+		}
+	}
+	err := client.StoreDocuments(ctx, no, docs, metas)
+	cancel()
 	r.logf("c%d StoreDocuments #%d -> %v", ci, no, err)
 	_ = before
 	// calls carrying this payload
